@@ -131,9 +131,10 @@ def check_cases(ctx, cases):
                     ctx.fail(case, "a node's id/mode is not git's (blob of bytes / link text / empty for special; 100755 iff an execute bit; trees incl. empty ones)", "node-id-not-git", {"paths": bad[:5], "got": [obs.get(p) for p in bad[:3]], "want": [want[p] for p in bad[:3]]})
                 if str(d.swhid()) != "swh:1:dir:" + want[""][1]:
                     ctx.fail(case, "root swhid() does not carry the git tree id", "root-swhid")
-                # listing order and spelling must not matter
+                # listing order and spelling must not matter (nor being watched through a progress callback)
+                seen_entries = []
                 with fs.shuffled_scandir(random.Random(case["listing_seed"] + 1)):
-                    d2 = Directory.from_disk(path=root)
+                    d2 = Directory.from_disk(path=root, progress_callback=seen_entries.append)
                 if d2.hash != d.hash:
                     ctx.fail(case, "root id depends on the listing order or on trailing slashes / relative spelling", "order-or-spelling-dependent")
                 # command line
